@@ -80,6 +80,17 @@ let dispatch name =
     let tol = rq () in let o = robj () in let ds = rnatlist () in let ab = rlist rbool in
     let pts = rlist rqlist in
     plist (fun ts -> pres pqlist (Exec.q_obj_deriv tol o ds ab ts)) pts
+  | "curve_deriv" ->
+    let tol = rq () in let o = robj () in let d = rnat () in let ab = rbool () in let ts = rqlist () in
+    plist (fun t -> pres pqlist (Exec.q_curve_deriv tol o d ab t)) ts
+  | "surface_deriv" ->
+    let tol = rq () in let o = robj () in let d1 = rnat () in let d2 = rnat () in
+    let ab = rlist rbool in let pts = rlist rqlist in
+    plist (fun ts -> pres pqlist (Exec.q_surface_deriv tol o d1 d2 ab ts)) pts
+  | "eval_h" ->
+    let tol = rq () in let o = robj () in let ds = rnatlist () in let ab = rlist rbool in
+    let pts = rlist rqlist in
+    plist (fun ts -> pqlist (Exec.q_eval_h tol o ds ab ts)) pts
   | _ -> out ("UNKNOWN " ^ name)
 
 let () =
